@@ -44,6 +44,9 @@ pub fn dispatch(op: &[Value]) -> Result<Value, String> {
         "get_version" => Ok(Value::String(get_version())),
         // ---- hooks ----
         "v_plane1" => Ok(Value::String(libmathcat::verif::canonicalize::plane1(&s(op, 1), os(op, 2)))),
+        "v_tts_tag" => Ok(Value::String(libmathcat::verif::tts::tag(&s(op, 1), &s(op, 2), &s(op, 3), &s(op, 4), b(op, 5)))),
+        "v_tts_merge_pauses" => Ok(Value::String(libmathcat::verif::tts::merge_pauses(&s(op, 1), &s(op, 2)))),
+        "v_tts_auto_pause" => Ok(Value::String(libmathcat::verif::tts::auto_pause(&s(op, 1), &s(op, 2), &s(op, 3)))),
         _ => Err(format!("HARNESS: unknown op '{}'", name)),
     }
 }
